@@ -34,4 +34,5 @@ package multi
 //@ func multi.NewLoader
 //@   props C19
 //@   nopanic
-//@   ensures fresh(result) && result.loaders == loaders
+//@   ensures [the-loaders-in-construction-order] fresh(result) && len(result.loaders) == len(loaders) && forall(i, 0, len(loaders), result.loaders[i] == loaders[i])
+//@   ensures [the-list-is-the-multis-own] len(loaders) > 0 ==> fresh(result.loaders)
